@@ -81,6 +81,9 @@ static void body(void) {
     case 10: workers = 1 + vx_choose(2); workers2 = workers + 1; n = 4 * g_jobsize + 5;      /* abandon a frame, then a frame with MORE workers (pools are re-allocated) */
         st[0] = (step_t){ g_jobsize + 1, 16, ZSTD_e_continue, 0 }; st[1] = (step_t){ 2 * g_jobsize + 100, 16, ZSTD_e_continue, 0 }; st[2] = (step_t){ 3 * g_jobsize + 300, 16, ZSTD_e_flush, 0 }; st[3] = (step_t){ n, 16, ZSTD_e_end, 0 }; nsteps = 4;
         abortAt = vx_choose(8); abortKind = 0; break;
+    case 12: workers = 1 + vx_choose(2); { int extra = vx_choose(3); n = 2 * g_jobsize + 700 + (size_t)extra;          /* flush that carries new input while every worker is busy, ample output */
+        st[0] = (step_t){ g_jobsize * (size_t)workers, 1u << 20, ZSTD_e_continue, 0 }; st[1] = (step_t){ g_jobsize * (size_t)workers + (extra == 0 ? 1 : extra == 1 ? 300 : g_jobsize - 1), 1u << 20, ZSTD_e_flush, 0 };
+        st[2] = (step_t){ n + (size_t)(workers - 1) * g_jobsize, 1u << 20, ZSTD_e_end, 0 }; n += (size_t)(workers - 1) * g_jobsize; nsteps = 3; } break;
     case 8: workers = 1 + vx_choose(2); rsync = 1; checksum = 1; n = g_jobsize * 2 + g_jobsize / 3; st[0] = (step_t){ n, 1u << 22, ZSTD_e_end, 0 }; nsteps = 1; break;
     case 9: workers = 3; workers2 = 1 + vx_choose(2); n = 3 * g_jobsize + 11; st[0] = (step_t){ n, 1u << 20, ZSTD_e_end, 0 }; nsteps = 1; break;
     default: return;
@@ -136,7 +139,8 @@ static void body(void) {
     /* C07: one output per subject, whatever the schedule and the number of workers */
     uint64_t h = vx_hash(g_dst, produced) | 1;
     int slot = (g_driver * 64 + overlap * 5 + dictMode * 16 + (abortAt >= 0 ? 0 : 0)) & 4095;
-    if (g_driver == 6 || g_driver == 9 || g_driver == 10) slot = (g_driver * 64) & 4095;   /* second frame is the same subject for every abort point / worker change */
+    if (g_driver == 6 || g_driver == 9 || g_driver == 10) slot = (g_driver * 64) & 4095;
+    if (g_driver == 12) slot = (12 * 64 + (int)(n % 61)) & 4095;                /* D12's input and call boundaries depend on its choices: one subject per (n) */   /* second frame is the same subject for every abort point / worker change */
     uint64_t prev = __sync_val_compare_and_swap(&g_first[slot], 0, h);
     if (prev != 0 && prev != h) { vx_fail("differential: driver %d: output differs between schedules / worker counts for the same input and parameters", g_driver); return; }
     vx_obs_u64(h); vx_obs_u64((uint64_t)sw);
